@@ -167,6 +167,49 @@ func shrink(h History, run func(History) *Viol, shrinkArgs func(Step) []Step) Hi
 			}
 		}
 	}
+	// pairs of steps that only make sense together (allocate + free, set + read)
+	for changed := true; changed && len(h.Steps) <= 400; {
+		changed = false
+		for i := 0; i < len(h.Steps) && !changed; i++ {
+			for j := i + 1; j < len(h.Steps) && j <= i+12; j++ {
+				c := h
+				c.Steps = make([]Step, 0, len(h.Steps)-2)
+				c.Steps = append(c.Steps, h.Steps[:i]...)
+				c.Steps = append(c.Steps, h.Steps[i+1:j]...)
+				c.Steps = append(c.Steps, h.Steps[j+1:]...)
+				if v := fails(c); v != nil {
+					c.Violation = v
+					h = c
+					changed = true
+					break
+				}
+			}
+		}
+	}
+	// smaller configured bounds (C20): shrink the range from the top, then move it to 0 / 1
+	for changed := true; changed; {
+		changed = false
+		for k := range h.Instances {
+			ic := h.Instances[k]
+			if ic.Max <= ic.Min {
+				continue
+			}
+			for _, nm := range []int64{ic.Min + (ic.Max-ic.Min)/2, ic.Max - 1} {
+				if nm < ic.Min || nm >= ic.Max {
+					continue
+				}
+				c := h
+				c.Instances = append([]InstCfg(nil), h.Instances...)
+				c.Instances[k].Max = nm
+				if v := fails(c); v != nil {
+					c.Violation = v
+					h = c
+					changed = true
+					break
+				}
+			}
+		}
+	}
 	// shrink arguments
 	if shrinkArgs != nil {
 		// pass 0 accepts any failing alternative (boundary values may be "larger");
